@@ -28,9 +28,13 @@ Step(e) ==
   \/ e.a = "Unsubscribe" /\ e.res = "ok" /\ R' = Unsubscribe(R, e.c) /\ AtMost(e, R')
   \/ e.a = "Connect" /\ e.res = "ok" /\ CanConnect(R, e.r) /\ R' = Connect(R, e.r) /\ AtMost(e, R')
   \/ e.a = "Disconnect" /\ e.res = "ok" /\ R' = Disconnect(R, e.r) /\ AtMost(e, R')
+  \/ e.a = "Outage" /\ e.res = "ok" /\ CanOutage(R, e.r) /\ R' = Outage(R, e.r) /\ AtMost(e, R')
+  \/ e.a = "Recover" /\ e.res = "ok" /\ CanRecover(R, e.r) /\ R' = Recover(R, e.r) /\ AtMost(e, R')
   \/ e.a = "AddB" /\ e.res = "ok" /\ CanAdd(R, e.t) /\ R' = AddBroadcast(R, e.t) /\ AtMost(e, R')
   \/ e.a = "AddT" /\ e.res = "ok" /\ CanAdd(R, e.t) /\ R' = AddTarget(R, e.t, e.tg) /\ AtMost(e, R')
-  \/ e.a = "Report" /\ e.res = "ok" /\ CanReport(R, e.c) /\ R' = ReportAll(R, e.c, e.t, e.ps) /\ AtMost(e, R')
+  \* a report over a broken link is lost ("lost": refused by the relay's writer, or accepted by a relay further down and
+  \* dropped on the way); over links that are up it is accepted
+  \/ e.a = "Report" /\ e.res = (IF LinkUp(R, Home[e.c]) THEN "ok" ELSE "lost") /\ CanReport(R, e.c) /\ R' = ReportAll(R, e.c, e.t, e.ps) /\ AtMost(e, R')
   \/ /\ e.a = "Take" /\ R.tasks[e.t] # NoTask
      /\ LET ss == {s \in Sources : CanTake(R, e.t, s)} IN
         IF ss = {} THEN e.res = (IF R.tasks[e.t].open THEN "empty" ELSE "closed") /\ R' = R
